@@ -145,6 +145,22 @@ def run(rep, tier, seed):
         for _ in range(30):
             ws = [rng.choice(pool + ['mit']) for _ in range(rng.randint(1, maxw))]
             cases.append((T, ' '.join(ws), False))
+    # chains: names that share their last / first word (also one-character words), texts that run through the chain
+    cw = ['a', 'b', 'c', 'd', '2', 'gnu', 'gpl', 'v']
+    for _ in range(600 if tier == 'thorough' else 120):
+        ws = [rng.choice(cw) for _ in range(rng.randint(4, 7))]
+        cuts = sorted(rng.sample(range(1, len(ws) - 1), rng.randint(1, min(2, len(ws) - 2))))
+        names, st = [], 0
+        for cpos in cuts + [len(ws) - 1]:
+            names.append(' '.join(ws[st:cpos + 1]))     # consecutive names share the word at the cut
+            st = cpos
+        T = [(n, [], False) for n in dict.fromkeys(names)] + [('x', [], False)]
+        if not gen.table_ok(T):
+            continue
+        base = ' '.join(ws)
+        for text in (base, base + ' or x', 'x or ' + base, 'x and (' + base + ') or x', ' '.join(ws[1:]) + ' or x'):
+            cases.append((T, text, False))
+            rep.count('chain_texts')
     # regression inputs of the repaired defects
     cases += [([('GNU GPL', [], False), ('GPL 2.0', [], False)], 'GNU GPL 2.0 or mit', False),
               ([('GPL 2.0', [], False), ('mit', [], False)], 'mit or gpl    2.0', False),
